@@ -25,46 +25,99 @@ def make_signature(params):
     return inspect.Signature([P(n, KINDS[k]) for n, k in params])
 
 
+class _AInfo:
+    pass
+
+
 class AbsFunc:
+    """Internals live in a slot so that functools.wraps (which copies __dict__) and deepcopy treat it
+    like a plain function; `__signature__` follows __wrapped__/overrides exactly as for functions."""
+
+    __slots__ = ("_a", "__dict__", "__weakref__")
+
     def __init__(self, name, params, outputs=1, out_keys=None, ret="float"):
-        self.__name__ = name
-        self.__qualname__ = name
-        self.__module__ = "pyvc.absfunc"
-        self.__doc__ = None
-        self.__annotations__ = {}
-        self.params = list(params)
-        self.names = [n for n, _ in params]
-        self.__signature__ = make_signature(params)
-        self.outputs = outputs
-        self.out_keys = out_keys
+        a = _AInfo()
+        a.params = list(params)
+        a.names = [n for n, _ in params]
+        a.sig = make_signature(params)
+        a.outputs = outputs
+        a.out_keys = out_keys
+        a.ret = ret
         sort = {"float": z3.RealSort(), "bool": z3.BoolSort(), "int": z3.IntSort()}[ret]
-        self.F = [z3.Function(f"{name}.{o}" if outputs > 1 or out_keys else name, *([z3.RealSort()] * len(params)), sort) if params else z3.Const(f"{name}.{o}" if outputs > 1 or out_keys else name, sort) for o in range(len(out_keys) if out_keys else outputs)]
-        self.n_calls = 0
+        n_out = len(out_keys) if out_keys else outputs
+        multi = outputs > 1 or bool(out_keys)
+        a.F = [
+            (z3.Function(f"{name}.{o}" if multi else name, *([z3.RealSort()] * len(params)), sort) if params else z3.Const(f"{name}.{o}" if multi else name, sort))
+            for o in range(n_out)
+        ]
+        a.n_calls = 0
+        a.name = name
+        self._a = a
+        d = self.__dict__
+        d["__name__"] = name
+        d["__qualname__"] = name
+        d["__module__"] = "pyvc.absfunc"
+        d["__doc__"] = None
+        d["__annotations__"] = {}
+
+    @property
+    def __signature__(self):
+        d = self.__dict__
+        if "__signature__" in d:
+            return d["__signature__"]
+        return self._a.sig
+
+    @__signature__.setter
+    def __signature__(self, v):
+        self.__dict__["__signature__"] = v
+
+    @property
+    def names(self):
+        return self._a.names
+
+    @property
+    def params(self):
+        return self._a.params
+
+    @property
+    def n_calls(self):
+        return self._a.n_calls
+
+    def __deepcopy__(self, memo):
+        return self  # functions are atomic for copy.deepcopy
+
+    def __copy__(self):
+        return self
+
+    def __repr__(self):
+        return f"<uninterpreted {self._a.name}({', '.join(self._a.names)})>"
 
     def term(self, values, o=0):
+        a = self._a
         vals = []
         for v in values:
             if isinstance(v, SymArray):
                 if v.ndim != 0:
-                    raise Undecided(f"uninterpreted function {self.__name__} applied to a non-scalar array")
+                    raise Undecided(f"uninterpreted function {a.name} applied to a non-scalar array")
                 v = v.get(())
             vals.append(_to_real(lift(v)))
-        return self.F[o](*vals) if self.params else self.F[o]
+        return a.F[o](*vals) if a.params else a.F[o]
 
     def __call__(self, *args, **kwargs):
-        ba = self.__signature__.bind(*args, **kwargs)  # TypeError exactly as CPython would raise
-        self.n_calls += 1
-        values = [ba.arguments[n] for n in self.names]
-        outs = [T(self.term(values, o)) for o in range(len(self.F))]
-        if self.out_keys:
-            return dict(zip(self.out_keys, outs))
-        if self.outputs == 1:
+        a = self._a
+        ba = a.sig.bind(*args, **kwargs)  # TypeError exactly as CPython would raise
+        a.n_calls += 1
+        values = [ba.arguments[n] for n in a.names]
+        outs = [T(self.term(values, o)) for o in range(len(a.F))]
+        if a.out_keys:
+            return dict(zip(a.out_keys, outs))
+        if a.outputs == 1:
             return outs[0]
         return tuple(outs)
 
     def spec(self, by_name, o=0):
         """the value the property demands: F applied to the values bound *by name*"""
-        return T(self.term([by_name[n] for n in self.names], o))
+        return T(self.term([by_name[n] for n in self._a.names], o))
 
 
 _COEFFS = [3, 5, 7, 11, 13, 17, 19]
@@ -105,4 +158,27 @@ def native_function(name, params, outputs=1, out_keys=None):
 
     f.spec = value
     f.names = names
+    return f
+
+
+def native_model_function(name, params, ret="float", n_labels=None):
+    """numeric stand-in for a user model function (native mode): jax-traceable, deterministic from
+    the name; float: affine + one product; bool: a mixture of True/False; int: a label in [0, n)."""
+    import zlib
+
+    seed = zlib.crc32(name.encode())
+    cs = [((seed >> (3 * i)) % 7 + 1) / 4.0 * (1 if (seed >> i) & 1 else -1) for i in range(len(params) + 1)]
+    lin = " + ".join([repr(cs[0])] + [f"{cs[i + 1]!r} * {p}" for i, p in enumerate(params)])
+    if ret == "float":
+        extra = f" + 0.125 * {params[0]} * {params[-1]}" if len(params) >= 2 else ""
+        body = f"({lin}){extra} + 0.0 * jnp.zeros(())"
+    elif ret == "bool":
+        body = f"(jnp.floor(jnp.abs({lin}) * 3.0) % 3) != 0"
+    else:
+        body = f"(jnp.floor(jnp.abs({lin}) * 2.0).astype(int)) % {int(n_labels)}"
+    src = f"import jax.numpy as jnp\ndef {name}({', '.join(params)}):\n    return {body}\n"
+    ns = {}
+    exec(src, ns)  # noqa: S102 - generated from a fixed template
+    f = ns[name]
+    f.names = list(params)
     return f
